@@ -107,6 +107,17 @@ fn main() {
             }
         }
     }
+    // the matching relation itself: every pair of one-character names over printable ASCII (and the same inside a longer
+    // name) -- a field matches a lookup iff the names are equal up to ASCII letter case, nothing else
+    for x in 0x21u8..0x7f { for y in 0x21u8..0x7f {
+        if x == b',' || y == b',' { continue; }
+        let (xs, ys) = ((x as char).to_string(), (y as char).to_string());
+        n += 1;
+        if let Some(m) = run(&xs, "get_all", &ys) { if found.len() < 5 { found.push(m) } }
+        if (x ^ y) == 0x20 || x == y {
+            for op in ["remove_all", "remove_only", "get_only"] { n += 1; if let Some(m) = run(&format!("X-{xs}1,other,X-{ys}1"), op, &format!("x-{ys}1")) { if found.len() < 5 { found.push(m) } } }
+        }
+    }}
     let (cn, cf) = check_ctors();
     n += cn;
     found.extend(cf);
